@@ -260,4 +260,38 @@ Proof using WF ZERO.
   split; [exact S1|]. split; [exact S2|]. intros k v Hp Hk Hnn Hl.
   exact (pin_honoured cc r bank pins d Er LAY HP HB HD (HDRAWS d Hd) b k v Hfc HK Hp Hk Hnn Hl).
 Qed.
+
+(* what BBAN.random returns was built by from_components from values that fit their fields *)
+Theorem random_built cc0 reg pins ci bi draws cc b r ps :
+  random_bban e components T find_algo R cc0 reg pins ci bi draws = Ok (cc, b) ->
+  find_row T cc = Some r -> r_positions r = Some ps -> fc_layout_ok components r = true ->
+  forallb (fun en => cleaned e (e_code en)) R = true ->
+  (forall k0 v0, In (k0, v0) (r_defaults r) -> cleaned e v0 = true) ->
+  (forall k v, In (k, v) pins -> cleaned e v = true) ->
+  (forall d, In d draws -> cleaned e (upper e d) = true) ->
+  exists values, from_components e components T find_algo cc values = Ok b /\
+    forall k, In k components ->
+      text_eqb k k_bank = false -> text_eqb k k_branch = false -> text_eqb k k_account = false ->
+      (len (clean e (get_val k values)) <= range_length (fc_rng components r k))%Z.
+Proof using WF ZERO.
+  intros H Er Eps LAY HCODES HD HP HDRAWS.
+  unfold random_bban in H. cbv zeta in H. unfold get_spec in H.
+  set (cc' := match cc0 with [] => nth ci (country_keys R) [] | _ => cc0 end) in *.
+  destruct (find_row T cc') as [r'|] eqn:Er'; [|discriminate]. cbn [bind] in H.
+  assert (Ecc : cc = cc').
+  { destruct (r_positions r'); [destruct (attempts _ _ _ _ _ _ _ _ _ _)|destruct draws]; cbn [bind] in H; congruence. }
+  clearbody cc'. subst cc'. rewrite Er in Er'. inversion Er'; subst r'. clear Er'. rewrite Eps in H.
+  remember (if reg then match country_entries R cc with [] => None | l => nth_error l bi end else None) as bank eqn:Ebank.
+  destruct (attempts e components T find_algo 100 cc r bank pins draws) as [b0|x|x] eqn:E; try discriminate. cbn [bind] in H.
+  inversion H; subst b0. clear H.
+  destruct (attempts_ok _ _ _ _ _ _ _ E) as (d & Hd & Hfc).
+  assert (HB : forall en, bank = Some en -> cleaned e (e_code en) = true).
+  { intros en Hen. rewrite forallb_forall in HCODES. apply HCODES.
+    rewrite Ebank in Hen. destruct reg; [|discriminate].
+    destruct (country_entries R cc) as [|e0 l] eqn:El; [discriminate|].
+    apply nth_error_In in Hen. rewrite <- El in Hen. unfold country_entries, idx_filter in Hen.
+    apply filter_In in Hen as [Hen _]. exact Hen. }
+  exists (rnd_comps2 e components r bank pins d). split; [exact Hfc|].
+  exact (rnd_only cc r bank pins d Er LAY HP HB HD (HDRAWS d Hd)).
+Qed.
 End RandomFacts.
